@@ -138,7 +138,7 @@ def poly_solrec(prob, ineq_tol=1e-8, eq_tol=1e-6, skip_ls=False, **kwargs):
     f = metadata['f']
     lag_gts = metadata['gts']
     lag_eqs = metadata['eqs']
-    lagrangian = _make_dummy_lagrangian(f, lag_gts, lag_eqs)
+    lagrangian = _make_dummy_lagrangian(f, lag_gts, lag_eqs, metadata['lagrangian'])
     con = prob.constraints[0]
     alpha = con.alpha
     dummy_modulated_lagrangian = Polynomial(alpha, np.ones(shape=(alpha.shape[0],)))  # coefficients dont matter
